@@ -75,6 +75,7 @@ func largePolicies(path string, rng *rand.Rand, sizes []int) {
 	}
 	printedPolicies(o, rng, 60)
 	rejectedPolicies(o, rng, 44)
+	longValues(o, rng)
 }
 
 // printLine: a policy with 6 to 9 leaves is parsed, used once (Satisfaction re-sorts its gates in place, and Encrypt serialises them in
@@ -122,6 +123,58 @@ func rejectedPolicies(o *vlib.Out, rng *rand.Rand, n int) {
 			if err == nil {
 				l.Printed = p.String()
 			}
+		})
+		if oc.Bad() {
+			l.Panics, l.Note = 1, oc.Panic
+		}
+		o.Emit(l)
+	}
+}
+
+// longValues: attribute values of 60 to 200 characters that differ only in their LAST character (the value enters the scheme through a
+// hash to a scalar): a positive leaf holds for the equal value only, a negated leaf for the different one only.
+type longLine struct {
+	Ev         string `json:"ev"`
+	Len        int    `json:"len"`
+	SatSame    bool   `json:"sat_same"`
+	SatOther   bool   `json:"sat_other"`
+	NegSame    bool   `json:"neg_same"`
+	NegOther   bool   `json:"neg_other"`
+	Panics     int    `json:"panics"`
+	Note       string `json:"note"`
+	Accepted   bool   `json:"accepted"`
+	ReparseOK  bool   `json:"reparse_ok"`
+	Agree      bool   `json:"agree"`
+	EqualKept  bool   `json:"equal_kept"`
+	RtEqual    bool   `json:"rt_equal"`
+	PolicyOK   bool   `json:"policy_ok"`
+	Satisfies  bool   `json:"satisfies"`
+	EncryptErr bool   `json:"encrypt_err"`
+}
+
+func longValues(o *vlib.Out, rng *rand.Rand) {
+	for _, n := range []int{60, 63, 64, 65, 66, 100, 128, 129, 200} {
+		l := longLine{Ev: "longval", Len: n}
+		base := make([]byte, n-1)
+		for i := range base {
+			base[i] = "abcdefghijklmnopqrstuvwxyz0123456789"[rng.Intn(36)]
+		}
+		v1, v2 := string(base)+"x", string(base)+"y"
+		oc := vlib.Safe(120e9, func() {
+			var pos, neg tkn20.Policy
+			if err := pos.FromString("k:" + v1); err != nil {
+				l.Note = err.Error()
+				return
+			}
+			if err := neg.FromString("not k:" + v1); err != nil {
+				l.Note = err.Error()
+				return
+			}
+			var same, other tkn20.Attributes
+			same.FromMap(map[string]string{"k": v1})
+			other.FromMap(map[string]string{"k": v2})
+			l.SatSame, l.SatOther = pos.Satisfaction(same), pos.Satisfaction(other)
+			l.NegSame, l.NegOther = neg.Satisfaction(same), neg.Satisfaction(other)
 		})
 		if oc.Bad() {
 			l.Panics, l.Note = 1, oc.Panic
